@@ -70,6 +70,18 @@ CHECKS = {
          "All 4320 combinations of payload kind, format, source, schema, signer (absent/succeeding/failing), listed/unlisted type and predicate outcome are run; the emitted bytes are parsed back and every required member, the data, content type, schema, indentation, id rules and the signature contract (serialized decodes to exactly what the signer saw and to the unsigned document; serialized_hmac is the signer's result; failing signer => nothing forwarded) are checked. Found and fixed: sign() errors were ignored. Known finding: the content-type member name is misspelled (pinned by the repository's own tests).",
          "The harness signer records its input; an unsigned twin run gives the byte-exact expected serialized document when the id is fixed.",
          "DESIGN.md §3 C18"),
+ "C09": ("bounded-exhaustive enumeration of payload shapes from an explicit grammar (run-time built types, unique canaries) x override maps x wrapper faults, against a reference classifier written from the documentation",
+         "73k shapes (421k thorough) with default operations and 2.3M (shape, override map, wrapper state) cases are run through the real filter; no canary of a non-public leaf may be readable in the forwarded event (structural walk and JSON rendering, raw and base64 forms), redacted leaves equal [REDACTED], errors forward nothing, rotation payloads are consumed. Found and fixed: top-level untagged map, struct by value inside a map, Taggable map without matching tags. Known finding: a struct payload passed by value is forwarded unfiltered (pinned by the repository's own Example).",
+         "The expected fate of every leaf comes from the shape descriptor only; over-redaction and unexpected (fail-closed) errors are counted, not judged.",
+         "DESIGN.md §3 C09, §2.5"),
+ "C10": ("the same bounded-exhaustive shape enumeration with a pristine-twin equality oracle and a structural-preservation oracle",
+         "For every case of the C09 enumeration the input event and payload must be deep-equal, after Process, to a twin rebuilt from the same descriptor; the output must have the same dynamic type, every leaf reachable along the same path with the same kind, every public value unchanged; all-none overrides, nil and zero payloads return the very same event. Found and fixed: pointer wrapper values in untagged maps were replaced by struct values.",
+         "Twin construction shares no copy routine with the filter.",
+         "DESIGN.md §3 C10"),
+ "C16": ("bounded-exhaustive enumeration of values x key contexts with independent decryption / HMAC recomputation, explicit-state BFS over rotation histories, and stateless model checking of rotation racing with Process under the race detector",
+         "Every encrypted value is decoded and decrypted with the wrapper the reference model says is in force, every HMAC recomputed with x/crypto hkdf + crypto/hmac; per-event wrappers (determinism, id dependence), salt/info precedence, all rotation histories up to depth 3 (4 thorough) through Rotate and rotation payloads, and Rotate || Process || Process under every schedule within the bound: each value verifies wholly under the old or the new material. Found and fixed: an unlocked wrapper read (race) and a mix of an old-derived event key with new salt/info.",
+         "AES-GCM / HKDF / HMAC libraries are trusted as oracles; NewEventWrapper re-derives the event wrapper.",
+         "DESIGN.md §3 C16"),
 }
 
 NOT_YET = "check not built yet in this session (work in progress; see DESIGN.md for the plan)"
